@@ -401,6 +401,9 @@ func (sh *shaper) replaceAll(c *ssa.Call) *Shape {
 
 // escProducible: can the escaping scheme (escape char set[0], protected chars set) output text t?
 func escProducible(t, set string) bool {
+	if set == "" {
+		return true
+	}
 	e := set[0]
 	for i := 0; i < len(t); i++ {
 		if t[i] == e {
@@ -446,10 +449,81 @@ func (sh *shaper) inline(fn *ssa.Function) *Shape {
 	var alts []*Shape
 	for _, b := range fn.Blocks {
 		if ret, ok := b.Instrs[len(b.Instrs)-1].(*ssa.Return); ok && len(ret.Results) > 0 {
+			if p, isParam := ret.Results[0].(*ssa.Parameter); isParam && isStringType(p.Type()) {
+				if chars := freeOfChars(b, p); chars != "" {
+					// fast path: the value is returned unchanged because it contains none of chars
+					alts = append(alts, &Shape{K: "esc", S: chars, Why: "free", Of: p})
+					continue
+				}
+			}
 			alts = append(alts, sh.of(ret.Results[0]))
 		}
 	}
-	return alt(alts...)
+	return mergeFree(alt(alts...))
+}
+
+// freeOfChars: block b is reached only when strings.ContainsAny(p, chars) (constant chars) was false.
+func freeOfChars(b *ssa.BasicBlock, p *ssa.Parameter) string {
+	for _, g := range guardsOf(b) {
+		v := g.Cond
+		sense := g.Sense
+		for {
+			if u, ok := v.(*ssa.UnOp); ok && u.Op == token.NOT {
+				v = u.X
+				sense = !sense
+				continue
+			}
+			break
+		}
+		c, ok := v.(*ssa.Call)
+		if !ok || sense || len(c.Call.Args) != 2 || c.Call.Args[0] != ssa.Value(p) {
+			continue
+		}
+		if n := calleeFull(&c.Call); n != "strings.ContainsAny" {
+			continue
+		}
+		// the character set may be a constant or a concatenation of constants
+		if k, ok := c.Call.Args[1].(*ssa.Const); ok && k.Value != nil && k.Value.Kind() == constant.String {
+			return constant.StringVal(k.Value)
+		}
+	}
+	return ""
+}
+
+// mergeFree: an alternative "returned unchanged because it contains none of C" is the identity case
+// of an escaping scheme whose protected set is within C.
+func mergeFree(s *Shape) *Shape {
+	if s.K != "alt" {
+		return s
+	}
+	var real *Shape
+	for _, x := range s.Sub {
+		if x.K == "esc" && x.Why != "free" {
+			real = x
+		}
+	}
+	if real == nil {
+		return s
+	}
+	var out []*Shape
+	for _, x := range s.Sub {
+		if x.K == "esc" && x.Why == "free" {
+			covered := true
+			for i := 0; i < len(real.S); i++ {
+				if !strings.ContainsRune(x.S, rune(real.S[i])) {
+					covered = false
+				}
+			}
+			if covered {
+				continue
+			}
+		}
+		out = append(out, x)
+	}
+	if len(out) == 1 {
+		return out[0]
+	}
+	return &Shape{K: "alt", Sub: out}
 }
 
 func (sh *shaper) scanPurity(fn *ssa.Function) {
